@@ -74,6 +74,8 @@ def run(ctx):
     r3 = ctx.rule("R3", "has_changed / update / invalidate agree on key (target.name) and hash (hash_spec(target.spec)); records persist", min_instances=8)
     rule_spec_clause(ctx, r3)
     rule_exit_persists(ctx, r3, ("spec hashes",))
+    from .c09 import rule_run_inside_stores
+    rule_run_inside_stores(ctx, r3, labels=("spec hashes",))
     rule_close_writes(ctx, r3, ("spec hashes",))
     rule_atomic_replace(ctx, r3, ("spec hashes",))
 
